@@ -380,9 +380,9 @@ def gen_frame_case(rng, confirm, i):
         else:       # regression stream of fix d63c479: categorical key next to a key column that is all NULL in a chunk
             n_on, kinds = 2, ["cat", "allnull"]
         n = max(n, 6)
-    # a partition column that is itself called dirN collides, in the drill layout, with the positional
-    # name of another level (finding C08-drill-dirN-name-collision): confirmation stream only
-    names = rng.sample(["k", "part", "A_b", "dir0", "year", "x1"] if scheme == "hive" else ["k", "part", "A_b", "year", "x1"], n_on)
+    # a partition column that is itself called dirN collided, in the drill layout, with the positional
+    # name of another level (fixed; which == 2 is its regression stream)
+    names = rng.sample(["k", "part", "A_b", "dir0", "year", "x1"], n_on)
     if which == 2:
         names = [rng.choice(["k", "year"]), "dir0"]
     cols = {}
